@@ -122,6 +122,8 @@ def run(ctx):
             det.update({"issue": "pvalue / geq inconsistent with the returned dist, or keep_dist changes them", "returned": {k: (v.tolist() if hasattr(v, 'tolist') else v) for k, v in res.items()}})
             ctx.violation("oracle", det, site="simulate_ts_dist")
         ops.append(f"pupper|{int(plus1)}|{reps}|{rat(obs)}|{rats(dist)}"); meta.append((det, float(res["pvalue"]), "simulate_ts_dist"))
+    from .c18 import hazard_block
+    hazard_block(ctx)       # shapes whose reference value does not survive a float round trip: keep_dist modes must agree
     for _ in range(per):
         reps = ctx.rng.randint(1, 15); n = ctx.rng.randint(2, 4)
         tv = [[ctx.rng.randint(0, 3) for _ in range(n)] for _ in range(reps)]
